@@ -507,8 +507,9 @@ def gen_scenario(rng, sid, p_malformed=0.15, max_depth=5, p_multi=0.3, allow_asy
     via_any = rng.random() < 0.2
     same_free_names = rng.random() < 0.3
     falsy_callables = rng.random() < 0.25
+    event_deco = rng.random() < 0.5
     return dict(id=sid, names=names, entries=entries, rounds=rounds, force_async=force_async,
-                malformed=malformed, via_any=via_any, same_free_names=same_free_names, falsy_callables=falsy_callables)
+                malformed=malformed, via_any=via_any, same_free_names=same_free_names, falsy_callables=falsy_callables, event_deco=event_deco)
 
 
 # ----------------------------------------------------------------------------- small-scope enumeration
